@@ -6,10 +6,11 @@ V = os.path.dirname(os.path.dirname(os.path.abspath(__file__)))
 sys.path.insert(0, V); sys.path.insert(0, os.path.join(V, "lib"))
 props = [json.loads(l) for l in open(os.path.join(V, "properties.jsonl"))]
 na_reasons = json.load(open(os.path.join(V, "tools", "not_applicable.json")))
+integrated = set(json.load(open(os.path.join(V, "tools", "integrated.json"))))   # checks reviewed and committed by the lead
 checks, na = [], []
 for p in props:
     pid = p["id"]
-    if not os.path.exists(os.path.join(V, "checks", pid.lower() + ".py")):
+    if pid not in integrated or not os.path.exists(os.path.join(V, "checks", pid.lower() + ".py")):
         na.append({"property_id": pid, "reason": na_reasons.get(pid, "check not built yet in this round (planned: see DESIGN.md section 5)")})
         continue
     m = importlib.import_module("checks." + pid.lower())
